@@ -675,6 +675,49 @@ func init() {
 		}
 	}
 
+	// ---- context.WithValue: the comparability test of the key goes through reflectlite; build the
+	// valueCtx directly (parent and key must be non-nil as in the library) ----
+	intrinsics["context.WithValue"] = func(fr *frame, a []value) value {
+		parent, key := a[0].(iface), a[1].(iface)
+		if parent.t == nil {
+			panic(targetPanic{v: iface{t: types.Typ[types.String], v: "cannot create context from nil parent"}})
+		}
+		if key.t == nil {
+			panic(targetPanic{v: iface{t: types.Typ[types.String], v: "nil key"}})
+		}
+		if !types.Comparable(key.t) {
+			panic(targetPanic{v: iface{t: types.Typ[types.String], v: "key is not comparable"}})
+		}
+		modelsUsed["context.WithValue (valueCtx built directly)"]++
+		T := namedType(fr.i.prog, "context", "valueCtx")
+		var cell value = structure{parent, key, a[2]}
+		return iface{t: types.NewPointer(T), v: &cell}
+	}
+
+	// ---- sort.Slice / sort.SliceStable: a stable insertion sort calling the real less closure
+	// (the library version swaps through reflectlite; any correct sort is within the contract) ----
+	sortSlice := func(fr *frame, a []value) value {
+		x := a[0].(iface)
+		s, ok := x.v.([]value)
+		if !ok {
+			panic(unsupported("sort.Slice of a non-slice"))
+		}
+		modelsUsed["sort.Slice as insertion sort over the real less function"]++
+		for i := 1; i < len(s); i++ {
+			for j := i; j > 0; j-- {
+				if !asBool(callValue(fr, a[1], cint(int64(j)), cint(int64(j-1))), "sort.less") {
+					break
+				}
+				tmp := copyVal(s[j])
+				setCell(&s[j], copyVal(s[j-1]))
+				setCell(&s[j-1], tmp)
+			}
+		}
+		return nil
+	}
+	intrinsics["sort.Slice"] = sortSlice
+	intrinsics["sort.SliceStable"] = sortSlice
+
 	// ---- errors ----
 	intrinsics["errors.Is"] = func(fr *frame, a []value) value {
 		return errorsIs(fr, a[0].(iface), a[1].(iface))
